@@ -154,6 +154,57 @@ theorem C07_class_roundtrip_partial (T : Tab) (hT : TabOk T) (fmt : Fmt) (p : Cl
   rw [h]
   simp [takeWhile_end hs.cls.2, dropWhile_end hs.cls.2, hs.cls.1, atEnd]
 
+/-- **Round trip / acceptance for all four formats** (partial: F1, F2, F3 still excluded by `PathOk`).
+    `PathOk` is `PathSafe` without the restriction to standard/historical/canonical: in the `cimobject` format
+    (the CIMObject HTTP header, `get_cimobject_header`) the host is not printed, so nothing is required of it — at any
+    nesting level of reference keys — and the parser finds no host (`parsedHost`); everything else comes back as in
+    the other formats.  This is the clause "every URI pywbem prints is accepted by its own parser" for the 4th format. -/
+theorem C07_uri_roundtrip_all_formats_partial (T : Tab) (hT : TabOk T) (fmt : Fmt) (p : Path) (hs : PathOk T fmt p) :
+    fromUri T (toUri T fmt p) = .ok (normPath T fmt p) :=
+  (path_rt_ok hT fmt p hs).2 _ (by omega)
+
+theorem C07_printed_is_accepted_all_formats_partial (T : Tab) (hT : TabOk T) (fmt : Fmt) (p : Path)
+    (hs : PathOk T fmt p) : ∃ q, fromUri T (toUri T fmt p) = .ok q :=
+  ⟨_, C07_uri_roundtrip_all_formats_partial T hT fmt p hs⟩
+
+/-- `PathSafe` (the hypothesis of the older theorems) is the special case -/
+theorem C07_pathSafe_is_pathOk (T : Tab) (fmt : Fmt) (p : Path) (hs : PathSafe T fmt p) : PathOk T fmt p :=
+  pathSafe_ok p hs
+
+/-- in the `cimobject` format the re-parsed path has no host; in the other formats it has the (cased) host -/
+theorem C07_cimobject_drops_host (T : Tab) (fmt : Fmt) (h n : Option Str) (c : Str) (ks : Keys) :
+    (normPath T fmt (.mk h n c ks)).host = if fmt = .cimobject then none else h.map (caseOf T fmt) := by
+  simp [normPath, Path.host, parsedHost]
+
+/-- class paths, all four formats -/
+theorem C07_class_roundtrip_all_formats_partial (T : Tab) (hT : TabOk T) (fmt : Fmt) (p : ClassPath)
+    (hs : HeadOk T fmt p.host p.ns p.cls) :
+    fromUriClass T (toUriClass T fmt p) =
+      .ok { host := parsedHost T fmt p.host, ns := p.ns.map (caseOf T fmt), cls := caseOf T fmt p.cls } := by
+  have h := parseHead_printed_all hT hs (tail := []) (Or.inl rfl)
+  simp only [List.append_nil] at h
+  unfold fromUriClass toUriClass
+  rw [h]
+  simp [takeWhile_end hs.cls.2, dropWhile_end hs.cls.2, hs.cls.1, atEnd]
+
+/-- non-vacuity for `cimobject`: a host that no other format could print (blank, `!`) and a nested reference with host -/
+def demoCim : Path := .mk (some "bad host!".toList) (some "root/cimv2".toList) "CIM_Foo".toList
+  (.cons "Name".toList (.str "a\"b".toList)
+    (.cons "Ref".toList (.ref (.mk (some "x y".toList) none "CIM_Bar".toList (.cons "X".toList (.bool true) .nil))) .nil))
+
+example : PathOk asciiTab .cimobject demoCim := by
+  have head1 : HeadOk asciiTab .cimobject (some "bad host!".toList) (some "root/cimv2".toList) "CIM_Foo".toList :=
+    ⟨(by intro h; exact absurd rfl h), (by intro x hx; cases hx; decide +kernel), (by decide +kernel), (by intro h; cases h)⟩
+  have head2 : HeadOk asciiTab .cimobject (some "x y".toList) none "CIM_Bar".toList :=
+    ⟨(by intro h; exact absurd rfl h), (by intro x hx; cases hx), (by decide +kernel), (by intro h; cases h)⟩
+  have str1 : (∀ c ∈ "a\"b".toList, c ≠ '\n') ∧ NotUri asciiTab "a\"b".toList ∧ dtAccepts "a\"b".toList = false :=
+    ⟨(by decide +kernel), isValueError_eq (by decide +kernel), (by decide +kernel)⟩
+  simp only [demoCim, PathOk, KeysOk, ValOk]
+  exact ⟨head1, (by intro h; cases h), (by decide +kernel), (by decide +kernel), str1,
+    ⟨head2, (by intro h; cases h), (by decide +kernel), (by decide +kernel), trivial, trivial⟩, trivial⟩
+example : toUri asciiTab .cimobject demoCim = "/root/cimv2:CIM_Foo.Name=\"a\\\"b\",Ref=\"/:CIM_Bar.X=TRUE\"".toList := by decide +kernel
+example : okIs (fromUri asciiTab (toUri asciiTab .cimobject demoCim)) (normPath asciiTab .cimobject demoCim) = true := by decide +kernel
+
 /-! non-vacuity: a path with every value type, a nested reference, host with port and hyphen, two-level namespace -/
 def demoSafe : Path := .mk (some "my-host.acme.com:5989".toList) (some "root/cimv2".toList) "CIM_Foo".toList
   (.cons "Name".toList (.str "a\"b\\c, d=e".toList) (.cons "B".toList (.bool true) (.cons "I".toList (.int (-42))
